@@ -691,7 +691,9 @@ def phrase_bank(ctx, lang):
 PUNCT = [", ", ". ", "; ", ": ", "! ", "? ", " (", ") ", " - ", " / ", "... ", " \"", "\" ", ".", ",",
          # punctuation glued to both neighbours, Unicode dashes and dots (typeset hyphen, non-breaking hyphen, en/em dash,
          # middle dot, hyphenation point, ellipsis), ASCII hyphen and slash without blanks
-         "\u2010", "\u2011", "\u2013", "\u2014", "\u00b7", "\u2027", "\u2026", "-", "/", " \u2013 ", "\u2010 "]
+         "\u2010", "\u2011", "\u2013", "\u2014", "\u00b7", "\u2027", "\u2026", "-", "/", " \u2013 ", "\u2010 ",
+         # punctuation glued to punctuation: one token that CONTAINS a full stop is not a lone period
+         ".\" ", ".) ", ".\u00bb ", ".\u201d ", ".\u2019 ", " \".", " (.", "., ", ",. ", ".. ", ".- ", "?! ", ".\u00a0", " . ", ". . "]
 
 
 def sentence(rng, lang, bank, k=None, seps=None, extra=()):
@@ -1233,7 +1235,7 @@ def oracle_c09(ctx, focus):
                 else:
                     w = rng.choice(ordw)
                 if i:
-                    parts.append(rng.choice([" ", " ", " ", ", ", ". ", "; ", " . ", ": ", "! ", ".", " - "]))
+                    parts.append(rng.choice([" ", " ", " ", ", ", ". ", "; ", " . ", ": ", "! ", ".", " - "]) if rng.chance(3, 4) else rng.choice(PUNCT))
                 parts.append(w.upper() if rng.chance(1, 10) else w)
             texts.append("".join(parts))
         # huge numbers and ranks (multipliers stacked on scale words, cardinal and ordinal forms): isolated and in pairs —
@@ -1246,6 +1248,12 @@ def oracle_c09(ctx, focus):
             ph = rng.choice(mults) + " " + " ".join(rng.choice(scales) for _ in range(1 + rng.below(3)))
             texts.append("%s %s %s" % (rng.choice(ordw), ph, rng.choice(ordw)))
             texts.append("%s %s, %s %s" % (rng.choice(ordw), ph, rng.choice(small_bank), rng.choice(ordw)))
+        # two small numbers with EVERY separator of the pools between them (punctuation glued to punctuation, pads, dashes,
+        # quotes, format characters ...): only a token that trims to exactly "." or a non-linking word isolates them
+        for p_ in sorted(set(PUNCT + streams.SEPS)):
+            a_, b_ = rng.choice(small_bank), rng.choice(small_bank)
+            texts.append(a_ + p_ + b_)
+            texts.append(rng.choice(ordw) + " " + a_ + p_ + b_ + " " + rng.choice(ordw))
         reqs = []
         for t in texts:
             for th in thrs:
@@ -1350,6 +1358,14 @@ def oracle_c10(ctx, focus):
         small_bank = [p for p in bank if len(p.split(" ")) == 1] or bank
         extra = {"fr": ["neuf", "le", "du", "un", "cent neuf", "vingt neuf", "numéro neuf"], "en": ["o", "o eight", "thirty o"]}.get(lang, [])
         reqs, meta = [], []
+        # words for freely built separators: the words of the fixed separators + affixed linking words, kept only if the
+        # validator refuses them as numbers and they are not in the linking vocabulary themselves
+        lw_ = [w for w in linking_words(lang) if w.isalpha()]
+        aff = [w + "-" for w in lw_] + [w + "'" for w in lw_[:8]]
+        av = run_impl(ctx, "c10v" + lang, ["val\t%s\t%s" % (lang, esc(w)) for w in aff])
+        at = run_impl(ctx, "c10t" + lang, ["tok\t%s" % esc(w) for w in aff])      # one token each (a leading dash would be cut off)
+        aff = [w for w, v, tk in zip(aff, av, at) if v.startswith("ERR") and "," not in tk and w not in linking_words(lang)]
+        sep_pool = sorted({w for st in STRONG[lang] for w in st.split(" ")}) + aff
         for _ in range(800 if ctx.tier != "thorough" else 15000):
             a = sentence(rng, lang, bank + small_bank, extra=extra)
             b = sentence(rng, lang, bank + small_bank, extra=extra)
@@ -1362,6 +1378,10 @@ def oracle_c10(ctx, focus):
             if not a[-1].isalnum() or not b[0].isalnum():
                 continue
             s = " " + rng.choice(STRONG[lang]) + ". "
+            if rng.chance(1, 3):
+                # other sentence enders; separator words drawn one by one, among them linking words that the tokenizer leaves
+                # glued to a dash or an apostrophe (`uh-`, `-so`): not in the linking vocabulary, hence ordinary words
+                s = " " + " ".join(rng.choice(sep_pool) for _ in range(3 + rng.below(2))) + rng.choice(["! ", "? ", "\u2026 ", "!? ", ". "])
             th = rng.choice(thrs)
             for t in (a + s + b, a, b):
                 reqs.append("text\t%s\t%s\t%s" % (lang, th, esc(t)))
@@ -1487,6 +1507,24 @@ def oracle_c11(ctx, focus):
                 for th in (t2nlib.thr_bits(10.0), t2nlib.thr_bits(100.0)):
                     reqs += ["occ\t%s\t%s\t%s" % (lang, th, esc(t)), "occ\t%s\t%s\t%s" % (lang, th, esc(r)),
                              "val\t%s\t%s" % (lang, esc(t)), "val\t%s\t%s" % (lang, esc(r))]
+                    meta.append((t, r))
+        # single tokens of hundreds / thousands of bytes that may still be numbers: a number word stretched by a run of one
+        # ending letter (lemmatizers strip plural and inflection endings of any length), hyphen compounds and glued
+        # compounds with the conjunction or a multiplier repeated; whatever the lowercase text gives, its recasings give too
+        cjw = {"en": "and", "fr": "et", "es": "y", "pt": "e", "it": "e", "de": "und", "nl": "en"}[lang]
+        singles = [p_ for p_ in bank if " " not in p_][:: max(1, len(bank) // 12)][:12] or bank[:3]
+        for w_ in singles:
+            for k_ in (120, 251, 300, 2000):
+                cands = [w_ + c_ * k_ for c_ in "senaoi"]
+                cands += [w_ + "-" + (cjw + "-") * (k_ // 4) + w_, w_ + cjw * (k_ // 3) + w_, (w_ + "-") * (k_ // 8) + w_, w_ * (k_ // 6)]
+                for c_ in cands:
+                    t = ("x " + c_ + " y").lower()
+                    r = t.upper()
+                    if r.lower() != t:
+                        continue
+                    th = rng.choice(thrs)
+                    reqs += ["occ\t%s\t%s\t%s" % (lang, th, esc(t)), "occ\t%s\t%s\t%s" % (lang, th, esc(r)),
+                             "val\t%s\t%s" % (lang, esc(c_.lower())), "val\t%s\t%s" % (lang, esc(c_.upper()))]
                     meta.append((t, r))
         # İ (U+0130) written where an I belongs inside a number word: `FİVE` and its lowercase `fi̇ve` are recasings of each
         # other; neither is a number word (same numbers on both sides; spans may shift: that part is the known finding)
@@ -1701,11 +1739,16 @@ def oracle_c14(ctx, focus):
                 suspects.append("%s:%d: %s" % (os.path.relpath(p, t2nlib.REPO), ln, st[:100]))
             if re.search(r"\bunsafe\b|static mut|RefCell|\bCell<|Mutex|RwLock|Atomic[A-Z]|thread_local!|lazy_static|OnceCell|OnceLock", st):
                 suspects.append("%s:%d: %s" % (os.path.relpath(p, t2nlib.REPO), ln, st[:100]))
+            # ambient inputs: anything that lets a result depend on something other than the arguments (clock, environment,
+            # files, network, process, thread identity, randomised hashing, addresses)
+            if re.search(r"std::time|\bInstant\b|SystemTime|std::env|env::var|std::fs|\bFile::|std::net|std::process|thread::|RandomState|"
+                         r"DefaultHasher|\brand::|getrandom|as \*const|as \*mut|as_ptr\(\)|available_parallelism|std::io|Location::caller|[Bb]acktrace", st):
+                suspects.append("%s:%d: %s" % (os.path.relpath(p, t2nlib.REPO), ln, st[:100]))
     ctx.samples["c14"] = [{"threads": 16, "requests": len(lines), "rounds": rounds, "static_suspects": suspects[:10]}]
     res = {"evaluations": n, "distinct_nontrivial": len(set(lines)), "failures": failures[:5000], "static_suspects": suspects,
            "rule": "one shared set of interpreters (and Language values) constructed in a seed-dependent order, 16 threads x seeded random calls drawn from text/val/scan/apply streams of all 7 languages, each answer compared with the answer of a fresh interpreter created first on a fresh thread (minimal history); fd1/fd2 of a child running the call mix must stay empty; Send+Sync asserted at compile time"}
     if suspects and not failures:
-        res["tie_broken"] = "print/unsafe/interior-mutability site in non-test code: " + "; ".join(suspects[:3])
+        res["tie_broken"] = "print / unsafe / interior-mutability / ambient-input (clock, env, fs, thread, hasher, address) site in non-test code: " + "; ".join(suspects[:3])
     return res
 
 
@@ -1843,6 +1886,10 @@ WS_CHARS = ["\t", "\n", "\x0b", "\x0c", "\r", " ", "\x85", " ", " ", " ", "
 
 def ws_substitute(rng, s):
     out, i = [], 0
+    # amounts: mostly 1-3 mixed characters; in some texts EVERY run is the same medium-sized run (4..40, plain blanks most of
+    # the time: punctuation then sits between two equal pads), in some each run has its own length 1..64; rarely hundreds
+    mode = rng.below(20)
+    uni = (" " if rng.chance(3, 4) else rng.choice(WS_CHARS)) * (4 + rng.below(37))
     while i < len(s):
         if s[i] in _WS_SET:
             j = i
@@ -1852,6 +1899,10 @@ def ws_substitute(rng, s):
                 # a very long run (hundreds of characters / bytes): the amount of whitespace must not matter either
                 c = rng.choice(WS_CHARS)
                 out.append(c * rng.choice([257, 300, 129, 86, 1000]))
+            elif mode < 3:
+                out.append(uni)
+            elif mode < 6:
+                out.append((" " if rng.chance(1, 2) else rng.choice(WS_CHARS)) * (1 + rng.below(64)))
             else:
                 out.append("".join(rng.choice(WS_CHARS) for _ in range(1 + rng.below(3))))
             i = j
@@ -1884,6 +1935,20 @@ def oracle_c17(ctx, focus):
                      "val\t%s\t%s" % (lang, esc(t)), "val\t%s\t%s" % (lang, esc(w)),
                      "text\t%s\t%s\t%s" % (lang, th, esc(w))]
             meta.append((t, w))
+        # punctuation between two numbers with a pad of every size from 1 to 40 blanks on both sides (the amount of blanks
+        # around a separator must not matter at ANY size, not only tiny and huge ones)
+        singles_ = [p_ for p_ in bank if " " not in p_][:40] or bank[:5]
+        for pch in (".", ",", ";", "-", "/", "!", "(", "\u2026"):
+            for pad_n in range(1, 41):
+                for blank in (" ", "\u00a0") if pad_n % 4 == 0 else (" ",):
+                    a_, b_ = rng.choice(bank), rng.choice(singles_)
+                    t = a_ + " " + pch + " " + b_
+                    w = a_ + blank * pad_n + pch + blank * pad_n + b_
+                    th = rng.choice(thrs)
+                    reqs += ["occ\t%s\t%s\t%s" % (lang, th, esc(t)), "occ\t%s\t%s\t%s" % (lang, th, esc(w)),
+                             "val\t%s\t%s" % (lang, esc(t)), "val\t%s\t%s" % (lang, esc(w)),
+                             "text\t%s\t%s\t%s" % (lang, th, esc(w))]
+                    meta.append((t, w))
         outs = run_impl(ctx, "c17" + lang, reqs)
         for i, (t, w) in enumerate(meta):
             n += 5
@@ -1930,7 +1995,9 @@ def oracle_c18(ctx, focus):
     thrs = [THR0, t2nlib.thr_bits(1.0), t2nlib.thr_bits(10.0), t2nlib.thr_bits(float("inf")), t2nlib.thr_bits(float("nan"))]
     numw = ["one", "eight", "twelve", "twenty", "hundred", "thousand", "first", "third", "twenty-one", "zero", "fifth", "nought", "ninety"]
     plain = ["cat", "x", "oscar", "the", "and", "is", "s", "point", "a"]
-    punct = [",", ".", ";", "!", "-", "(", "...", ":", "\u0001", "\u001f", "\u0000", "\u2010", "7"]
+    punct = [",", ".", ";", "!", "-", "(", "...", ":", "\u0001", "\u001f", "\u0000", "\u2010", "7",
+             # format characters: invisible, but not blanks -- punctuation for the neighbour rule
+             "\ufeff", "\u200b", "\u2060", "\u00ad", "\u200d", "\u061c"]
     # every alphabetic string literal of the English module that is not a number word is a possible neighbour too
     # (a special case for one particular word next to `o` would name that word in the source)
     import vocab as _vocab
